@@ -54,6 +54,10 @@ def run(ctx):
                 "with single_connection=True and on one with per-call connections; distinct key = (op kinds, "
                 "result kinds)")
     ctx.prove()
+    ctx.partial.append("handler/event/tick semantics are modelled as far as the suite drives them (ids, statuses, payload "
+                       "ids, sequence numbers); subscribe_events/stream_ticks are not driven")
+    ctx.trusted.append("sqlite3: a closed connection raises ProgrammingError on use; committed data is visible to every "
+                       "later connection (exercised on real database files, not modelled)")
     S.check_pools()
     rng = random.Random(ctx.seed * 23 + 5)
     dbdir = S.fast_scratch(ctx)
